@@ -84,6 +84,10 @@ type lox struct {
 
 	_qla    int
 	_qlasym any
+
+	// _recovering is true from the moment _recover succeeds until the next input
+	// token is shifted.
+	_recovering bool
 }
 
 func (p *jsoncParser) parse(lex _Lexer) bool {
@@ -107,6 +111,9 @@ func (p *jsoncParser) parse(lex _Lexer) bool {
 		if action == accept {
 			break
 		} else if action >= 0 { // shift
+			if p._la != ERROR {
+				p._recovering = false
+			}
 			p._stack.Push(_item{
 				State: action,
 				Sym:   p._lasym,
@@ -169,6 +176,19 @@ func (p *jsoncParser) _recover() bool {
 		p._readToken()
 	}
 
+	// If no input token has been shifted since the previous recovery, recovering
+	// again with the same lookahead would repeat the same steps forever. Make
+	// progress by discarding the lookahead.
+	if p._recovering {
+		if p._la == EOF {
+			return false
+		}
+		p._readToken()
+		for p._la == ERROR {
+			p._readToken()
+		}
+	}
+
 	for {
 		save := p._stack
 
@@ -208,6 +228,7 @@ func (p *jsoncParser) _recover() bool {
 				p._qlasym = p._lasym
 				p._la = ERROR
 				p._lasym = errSym
+				p._recovering = true
 				return true
 			}
 
